@@ -216,6 +216,89 @@ def _mk(lines, fnid, kind, default_props, indent=''):
     return '\n'.join(texts), metas
 
 
+def _weave_sub(sub, e, fnid, src, sig_end, body_close, lps, edits, vacuity):
+    head = sub['head']
+    lines = [x for x in sub['lines']]
+    while lines and lines[-1][0].strip() == '':
+        lines.pop()
+    if head.startswith('@loop '):
+        k = int(head.split()[1])
+        if k > len(lps):
+            raise AnchorLost('loop %d of %s' % (k, fnid))
+        text, metas = _mk(lines, fnid, 'invariant', e['props'])
+        edits.append(Edit(lps[k - 1][1], '\n' + text + '\n', 5, [None] + metas + [None]))
+        if vacuity:
+            edits.append(Edit(lps[k - 1][1] + 1, '\n proof { assert(false); } //@@VACUITY-PROBE %s loop %d\n' % (fnid, k), 6,
+                              [None, {'fn': fnid, 'label': 'vacuity-probe-loop%d' % k, 'props': [], 'kind': 'vacuity', 'where': sub['where'], 'text': ''}, None]))
+    elif head.startswith('@iter '):
+        _, k, nm = head.split()
+        if int(k) > len(lps):
+            raise AnchorLost('loop %s of %s' % (k, fnid))
+        ks, ob = lps[int(k) - 1]
+        m = re.match(r'for\s+(.+?)\s+in\s+', src[ks:ob])
+        if not m:
+            raise AnchorLost('loop %s of %s is not a for loop' % (k, fnid))
+        edits.append(Edit(ks + m.end(), nm + ': ', 4))
+    elif head.strip() == '@hint start':
+        text, metas = _mk(lines, fnid, 'hint', e['props'])
+        edits.append(Edit(sig_end + 1, '\n' + text + '\n', 4, [None] + metas + [None]))
+    elif head.strip() == '@hint tail':
+        # before the trailing expression of the body (after the last ';' or '}' inside the body)
+        inner = src[sig_end + 1:body_close]
+        at = sig_end + 1 + max(inner.rfind(';'), inner.rfind('}')) + 1
+        text, metas = _mk(lines, fnid, 'hint', e['props'])
+        edits.append(Edit(at, '\n' + text + '\n', 6, [None] + metas + [None]))
+    elif head.startswith('@hint '):
+        m = re.match(r'@hint (after|before) (\d+) :: (.*)$', head)
+        if not m:
+            raise AnchorLost('bad hint header %r' % head)
+        where_, k, stmt = m.group(1), int(m.group(2)), m.group(3)
+        pos = sig_end
+        for _ in range(k):
+            pos = src.find(stmt, pos + 1, body_close)
+            if pos < 0:
+                raise AnchorLost('hint anchor %r #%d in %s' % (stmt, k, fnid))
+        at = pos if where_ == 'before' else pos + len(stmt)
+        text, metas = _mk(lines, fnid, 'hint', e['props'])
+        edits.append(Edit(at, '\n' + text + '\n', 6, [None] + metas + [None]))
+    elif head.startswith('@closure '):
+        # @closure <k> :: <binder: type> :: <requires/ensures clause text>
+        m = re.match(r'@closure (\d+) :: (.*?) :: (.*)$', head)
+        if not m:
+            raise AnchorLost('bad closure header %r' % head)
+        k, binder, clauses = int(m.group(1)), m.group(2), m.group(3)
+        if not re.match(r'\s*(requires|ensures)\b', clauses):
+            clauses = 'ensures ' + clauses
+        # a closure starts with '|' whose previous non-blank char is one of ( , =
+        starts = []
+        for mm in re.finditer(r'\|', src[sig_end:body_close]):
+            p0 = sig_end + mm.start()
+            q = p0 - 1
+            while src[q] in ' \t\n':
+                q -= 1
+            if src[q] in '(,=' and not (src[q] == '=' and src[q - 1] in '|&'):
+                starts.append(p0)
+        if k > len(starts):
+            raise AnchorLost('closure %d in %s' % (k, fnid))
+        pos = starts[k - 1]
+        pe = src.index('|', pos + 1)      # end of the parameter list
+        j = pe + 1
+        depth = 0
+        while True:
+            c = src[j]
+            if c in '([{':
+                depth += 1
+            elif c in ')]}':
+                if depth == 0:
+                    break
+                depth -= 1
+            elif c == ',' and depth == 0:
+                break
+            j += 1
+        edits.append(Edit(pe + 1, ' -> (%s) %s {' % (binder, clauses), 7))
+        edits.append(Edit(j, ' }', 8))
+
+
 def weave(src, vspecs, vacuity=False):
     """vspecs: [(filename, text)].  Returns (woven text, info) where info has:
        line_meta: {woven line -> meta}, fns: [{id, props, start_line, end_line, contract:bool}], obligations"""
@@ -224,6 +307,8 @@ def weave(src, vspecs, vacuity=False):
         entries += parse_vspec(text, fname)
     edits = []
     fn_entries = []
+    normalised = []
+    lost_hints = []
     for e in entries:
         ms, me = mod_range(src, e['mod'])
         bs, be = ms, me
@@ -265,6 +350,17 @@ def weave(src, vspecs, vacuity=False):
             rt = src[rt_start:sig_end].rstrip()
             edits.append(Edit(rt_start, '(%s: ' % e['ret'], 0))
             edits.append(Edit(rt_start + len(rt), ')', 1))
+        # a contract written for `&mut self` stays meaningful when the real signature takes `&self` (a refactor that
+        # drops the mutability): old(self)/final(self) both denote self then.  Mechanical normalisation, recorded.
+        takes_mut_self = re.search(r'\(\s*&\s*(?:\'\w+\s+)?mut\s+self\b', sig) is not None
+        if not takes_mut_self:
+            def norm(lines):
+                return [(re.sub(r'\b(?:old|final)\(self\)', 'self', t), lab, wh) for (t, lab, wh) in lines]
+            if any(re.search(r'\b(?:old|final)\(self\)', t) for (t, _, _) in e['spec']):
+                e['spec'] = norm(e['spec'])
+                for sub in e['subs']:
+                    sub['lines'] = norm(sub['lines'])
+                normalised.append(fnid)
         spec_lines = [x for x in e['spec']]
         while spec_lines and spec_lines[-1][0].strip() == '':
             spec_lines.pop()
@@ -283,86 +379,11 @@ def weave(src, vspecs, vacuity=False):
                               [None, {'fn': fnid, 'label': 'vacuity-probe', 'props': [], 'kind': 'vacuity', 'where': e['where'], 'text': ''}, None]))
         lps = loops_in(src, sig_end, body_close)
         for sub in e['subs']:
-            head = sub['head']
-            lines = [x for x in sub['lines']]
-            while lines and lines[-1][0].strip() == '':
-                lines.pop()
-            if head.startswith('@loop '):
-                k = int(head.split()[1])
-                if k > len(lps):
-                    raise AnchorLost('loop %d of %s' % (k, fnid))
-                text, metas = _mk(lines, fnid, 'invariant', e['props'])
-                edits.append(Edit(lps[k - 1][1], '\n' + text + '\n', 5, [None] + metas + [None]))
-                if vacuity:
-                    edits.append(Edit(lps[k - 1][1] + 1, '\n proof { assert(false); } //@@VACUITY-PROBE %s loop %d\n' % (fnid, k), 6,
-                                      [None, {'fn': fnid, 'label': 'vacuity-probe-loop%d' % k, 'props': [], 'kind': 'vacuity', 'where': sub['where'], 'text': ''}, None]))
-            elif head.startswith('@iter '):
-                _, k, nm = head.split()
-                if int(k) > len(lps):
-                    raise AnchorLost('loop %s of %s' % (k, fnid))
-                ks, ob = lps[int(k) - 1]
-                m = re.match(r'for\s+(.+?)\s+in\s+', src[ks:ob])
-                if not m:
-                    raise AnchorLost('loop %s of %s is not a for loop' % (k, fnid))
-                edits.append(Edit(ks + m.end(), nm + ': ', 4))
-            elif head.strip() == '@hint start':
-                text, metas = _mk(lines, fnid, 'hint', e['props'])
-                edits.append(Edit(sig_end + 1, '\n' + text + '\n', 4, [None] + metas + [None]))
-            elif head.strip() == '@hint tail':
-                # before the trailing expression of the body (after the last ';' or '}' inside the body)
-                inner = src[sig_end + 1:body_close]
-                at = sig_end + 1 + max(inner.rfind(';'), inner.rfind('}')) + 1
-                text, metas = _mk(lines, fnid, 'hint', e['props'])
-                edits.append(Edit(at, '\n' + text + '\n', 6, [None] + metas + [None]))
-            elif head.startswith('@hint '):
-                m = re.match(r'@hint (after|before) (\d+) :: (.*)$', head)
-                if not m:
-                    raise AnchorLost('bad hint header %r' % head)
-                where_, k, stmt = m.group(1), int(m.group(2)), m.group(3)
-                pos = sig_end
-                for _ in range(k):
-                    pos = src.find(stmt, pos + 1, body_close)
-                    if pos < 0:
-                        raise AnchorLost('hint anchor %r #%d in %s' % (stmt, k, fnid))
-                at = pos if where_ == 'before' else pos + len(stmt)
-                text, metas = _mk(lines, fnid, 'hint', e['props'])
-                edits.append(Edit(at, '\n' + text + '\n', 6, [None] + metas + [None]))
-            elif head.startswith('@closure '):
-                # @closure <k> :: <binder: type> :: <requires/ensures clause text>
-                m = re.match(r'@closure (\d+) :: (.*?) :: (.*)$', head)
-                if not m:
-                    raise AnchorLost('bad closure header %r' % head)
-                k, binder, clauses = int(m.group(1)), m.group(2), m.group(3)
-                if not re.match(r'\s*(requires|ensures)\b', clauses):
-                    clauses = 'ensures ' + clauses
-                # a closure starts with '|' whose previous non-blank char is one of ( , =
-                starts = []
-                for mm in re.finditer(r'\|', src[sig_end:body_close]):
-                    p0 = sig_end + mm.start()
-                    q = p0 - 1
-                    while src[q] in ' \t\n':
-                        q -= 1
-                    if src[q] in '(,=' and not (src[q] == '=' and src[q - 1] in '|&'):
-                        starts.append(p0)
-                if k > len(starts):
-                    raise AnchorLost('closure %d in %s' % (k, fnid))
-                pos = starts[k - 1]
-                pe = src.index('|', pos + 1)      # end of the parameter list
-                j = pe + 1
-                depth = 0
-                while True:
-                    c = src[j]
-                    if c in '([{':
-                        depth += 1
-                    elif c in ')]}':
-                        if depth == 0:
-                            break
-                        depth -= 1
-                    elif c == ',' and depth == 0:
-                        break
-                    j += 1
-                edits.append(Edit(pe + 1, ' -> (%s) %s {' % (binder, clauses), 7))
-                edits.append(Edit(j, ' }', 8))
+          try:
+            _weave_sub(sub, e, fnid, src, sig_end, body_close, lps, edits, vacuity)
+          except AnchorLost as ex:
+            lost_hints.append({'fn': fnid, 'anchor': sub['head'], 'why': str(ex), 'where': '%s:%d' % sub['where']})
+        continue
     edits.sort(key=lambda x: (x.pos, x.order))
     out = []
     last = 0
@@ -403,7 +424,7 @@ def weave(src, vspecs, vacuity=False):
     for fe in fn_entries:
         fe['start_line'] = line_of(map_pos(fe['kw']))
         fe['end_line'] = line_of(map_pos(fe['close']))
-    info = {'line_meta': line_meta, 'fn_entries': fn_entries, 'map_pos': map_pos, 'line_of': line_of}
+    info = {'line_meta': line_meta, 'fn_entries': fn_entries, 'map_pos': map_pos, 'line_of': line_of, 'normalised_receivers': normalised, 'lost_hints': lost_hints}
     return woven, info
 
 
